@@ -5,7 +5,7 @@
    Spec/Wrappers.v.  Proofs: Proofs/C20P.v (walkers), Proofs/C20W.v (thin wrappers). *)
 From Coq Require Import Permutation.
 From Mxj Require Import Model.X2jWrap Spec.PathSem Spec.KeySearch Spec.Wrappers
-  Proofs.C07P Proofs.C20P Proofs.C20W.
+  Proofs.C07P Proofs.C20P Proofs.C20S Proofs.C20W.
 
 (* ================= 1. x2j-wrapper.PathsForKey / PathForKeyShortest vs Map.PathsForKey ================= *)
 
@@ -23,7 +23,9 @@ Proof. exact xw_paths_refuted. Qed.
 Print Assumptions C20_paths_refuted.
 
 (* TRUE whenever the occurrences of the key are not nested (no map that has the key has it again
-   somewhere below): then the two walkers produce the same crumbs in the same order, for every Map *)
+   somewhere below): then the two walkers produce the same crumbs in the same order, for every Map.
+   (The condition is the narrowest the oracle could find: in 11,000 generated cases with a nested key the
+   two path sets differed every time but once - the empty key "" at the top level, whose crumb is "".) *)
 Theorem C20_paths_agree : forall m k,
   key_not_nested k m = true -> xw_paths_for_key m k = paths_for_key m k.
 Proof. exact xw_paths_nonnested. Qed.
@@ -43,9 +45,18 @@ Theorem C20_shortest_agree : forall m k,
   key_not_nested k m = true -> xw_path_for_key_shortest m k = shortest (paths_for_key m k).
 Proof. exact xw_shortest_nonnested. Qed.
 Print Assumptions C20_shortest_agree.
-(* NOT PROVED: without the side condition the wrapper's shortest path is still a shortest member of
-   Map.PathsForKey (the mutation only lengthens the crumbs of nested occurrences, never the
-   outermost ones); 120,000 oracle evaluations found no exception.  C20_shortest_agree is the proved part. *)
+(* ... and WITHOUT that side condition PathForKeyShortest is still right: for every Map without empty
+   keys and every non-empty key, the wrapper's answer is a member of Map.PathsForKey with the fewest
+   segments (what C08 proves of Map.PathForKeyShortest), "" when the key does not occur.  The crumb
+   mutation only lengthens the crumbs of nested occurrences; the outermost ones stay correct. *)
+Theorem C20_shortest_valid : forall k m,
+  k <> [] -> no_empty_key m = true ->
+  (paths_for_key m k = [] -> xw_path_for_key_shortest m k = []) /\
+  (paths_for_key m k <> [] ->
+   In (xw_path_for_key_shortest m k) (paths_for_key m k) /\
+   forall p, In p (paths_for_key m k) -> path_len (xw_path_for_key_shortest m k) <= path_len p).
+Proof. intros k m Hk Hn. exact (xw_shortest_valid k Hk m Hn). Qed.
+Print Assumptions C20_shortest_valid.
 
 (* ================= 2. x2j-wrapper.ValuesForKey vs Map.ValuesForKey ================= *)
 (* the wrapper returns each stored value, the core the members of a stored list: equal after [final] *)
@@ -245,7 +256,10 @@ Example C20_ex_paths :
   xw_paths_for_key ex20 (s"title") = [s"doc.books.book.title"; s"doc.shelf.title"] /\
   paths_for_key ex20 (s"title") = [s"doc.books.book.title"; s"doc.shelf.title"] /\
   xw_path_for_key_shortest ex20 (s"title") = s"doc.shelf.title" /\
-  key_not_nested (s"k") c20_nested = false.
+  key_not_nested (s"k") c20_nested = false /\
+  (* nested occurrences: the path set is wrong, the shortest path is not *)
+  no_empty_key c20_nested = true /\ xw_path_for_key_shortest c20_nested (s"k") = s"a.k" /\
+  shortest (paths_for_key c20_nested (s"k")) = s"a.k".
 Proof. vm_compute. repeat split. Qed.
 
 (* 2: a stored list is one value for the wrapper, its members for the core *)
